@@ -1,11 +1,15 @@
 #!/bin/sh
-# usage: try_mutant.sh <patch.diff> <Cnn> [<Cnn>...]   applies the patch to /repo, runs the quick checks, reverts
+# usage: try_mutant.sh <patch.diff (absolute path)> <Cnn> [<Cnn>...]   applies the patch to /repo, runs the quick checks, reverts.
+# Evidence files describe the UNCHANGED tree: they are saved before and restored after the mutated run.
 P="$1"; shift
 cd /repo || exit 2
 if ! git apply --check "$P" 2>/dev/null; then echo "PATCH DOES NOT APPLY: $P"; exit 2; fi
+SAVE=$(mktemp -d /verif/.cache/evidence-save.XXXXXX)
+cp /verif/evidence/*.json "$SAVE"/ 2>/dev/null
 git apply "$P"
 for c in "$@"; do
   ( cd /verif && ./check "$c" --tier quick 2>&1 | grep -E "^(VIOLATION|KNOWN|C[0-9]+ quick|proof problem)" | cut -c1-300 )
 done
-git -C /repo checkout -- . 
+git -C /repo checkout -- .
+cp "$SAVE"/*.json /verif/evidence/ 2>/dev/null; rm -rf "$SAVE"
 rm -f /verif/replays/*.case.tmp
